@@ -86,7 +86,15 @@ func unitCmd(args []string) {
 			fmt.Printf("   ERROR: %s\n", res.Error)
 			bad++
 		}
+		dead := 0
+		if res.Contract != nil {
+			dead = res.Contract.DeadReturnCount
+		}
 		for _, o := range res.Obls {
+			if o.ReturnCover && o.Status == "unsat" && dead > 0 {
+				dead--
+				continue
+			}
 			ok := (o.Status == "unsat") != o.Vacuity
 			if o.Vacuity && o.Status == "sat" {
 				ok = true
